@@ -114,6 +114,22 @@ func loadCorpus(c *Ctx, id string, opts CheckOpts) []*Prog {
 		ps = append(ps, p)
 		c.Count("corpus_programs")
 	}
+	// raw Folang programs (constructs outside the MiniFo AST, e.g. `type … and …` groups): X.fo with
+	// the expected stdout in X.out; they carry their own package_info so that tinyfo can read them too
+	raws, _ := filepath.Glob(filepath.Join(c.Verif, "corpus", id, "*.fo"))
+	sort.Strings(raws)
+	for _, f := range raws {
+		src, err := os.ReadFile(f)
+		if err != nil {
+			panic(err)
+		}
+		out, err := os.ReadFile(strings.TrimSuffix(f, ".fo") + ".out")
+		if err != nil {
+			panic(fmt.Sprintf("corpus %s has no .out file", f))
+		}
+		ps = append(ps, &Prog{RawFo: string(src), RawOut: string(out), Main: blockOf(eUnit())})
+		c.Count("corpus_raw_programs")
+	}
 	return ps
 }
 
